@@ -190,6 +190,12 @@ class SmtpRelayClient(RelayPoolClient):
             if not rcptto.is_error():
                 break
         else:
+            # Every recipient was refused. The one reply reported for the
+            # whole message must not turn a recipient that was only deferred
+            # into a permanent failure.
+            for rcptto in rcpttos:
+                if rcptto.code.startswith('4'):
+                    raise SmtpRelayError.factory(rcptto)
             raise SmtpRelayError.factory(rcpttos[0])
         if data.is_error():
             raise SmtpRelayError.factory(data)
